@@ -349,10 +349,13 @@ type Rig struct {
 	te            pokertable.TableEngine
 	hk            *pokertable.VerifHooks
 	be            Backend
-	settledDone   atomic.Int64            // GameSettled notifications delivered (and their listener returned)
-	onSettled     func(*pokertable.Table) // called inside the GameSettled notification (set with setOnSettled)
-	listenerDwell time.Duration           // time the action listener takes (set before the hand starts)
-	gone          atomic.Bool             // the history is over: the backend answers nothing any more (abandon)
+	settledDone   atomic.Int64                   // GameSettled notifications delivered (and their listener returned)
+	onSettled     func(*pokertable.Table)        // called inside the GameSettled notification (set with setOnSettled)
+	snapHook      func(*pokertable.Table) string // reacts to a snapshot inside the notification; returns a trace line
+	inSnapHook    bool
+	marks         map[int]string // trace lines noted by snapHook, by snapshot index
+	listenerDwell time.Duration  // time the action listener takes (set before the hand starts)
+	gone          atomic.Bool    // the history is over: the backend answers nothing any more (abandon)
 	setting       pokertable.TableSetting
 
 	mu          sync.Mutex
@@ -461,6 +464,12 @@ func (g guardBackend) Pass(gs *pokerface.GameState) (*pokerface.GameState, error
 	return g.Backend.Pass(gs)
 }
 
+func (r *Rig) markAt(i int) string {
+	r.mu.Lock()
+	defer r.mu.Unlock()
+	return r.marks[i]
+}
+
 func (r *Rig) setOnSettled(f func(*pokertable.Table)) {
 	r.mu.Lock()
 	r.onSettled = f
@@ -484,7 +493,29 @@ func NewRig(setting pokertable.TableSetting, be Backend, interval int) (*Rig, er
 		}
 		r.mu.Lock()
 		r.snaps = append(r.snaps, c)
+		idx := len(r.snaps) - 1
+		hook := r.snapHook
+		if r.inSnapHook {
+			hook = nil // a publication caused by the hook itself
+		}
+		if hook != nil {
+			r.inSnapHook = true
+		}
 		r.mu.Unlock()
+		// a listener that acts on a snapshot before it returns (on the engine's goroutine, the engine lock not held by
+		// the hand's updater): whatever it did is noted next to the snapshot it reacted to
+		if hook != nil {
+			note := hook(c)
+			r.mu.Lock()
+			r.inSnapHook = false
+			if note != "" {
+				if r.marks == nil {
+					r.marks = map[int]string{}
+				}
+				r.marks[idx] = note
+			}
+			r.mu.Unlock()
+		}
 	})
 	r.te.OnTableErrorUpdated(func(t *pokertable.Table, err error) {
 		r.mu.Lock()
